@@ -44,6 +44,19 @@ def lookup_chars(s):
     return "".join(out)
 
 
+def lookup_names(s):
+    """the names unmangle might look up in s, as the model forms them (the text between two X, _ -> space, H -> -),
+    in the case the implementation passes to unicodedata.lookup"""
+    out = set()
+    parts = s.split("X")
+    for i in range(len(parts)):
+        for j in range(i, min(i + 3, len(parts))):
+            p = "X".join(parts[i:j + 1])
+            out.add(p.replace("_", " ").replace("H", "-"))
+            out.add(p.replace("_", " ").replace("H", "-").upper())
+    return out
+
+
 def impl_unmangle(unmangle, m):
     try:
         return ("OK", unmangle(m))
@@ -79,7 +92,7 @@ def _chunk(job):
         nums = [int(x) for x in l[3:].split(",")] if len(l) > 3 else []
         pres.append("".join(chr(n) for n in nums if n < mc.T0) if nums.count(mc.T0) == 1 else None)
     todo = [(j, m) for j, m in enumerate(mangled) if m is not None]
-    lines = "".join("unmangle\t%s\t%s\n" % (mc.cps(m), mc.table_for(m + lookup_chars(m))) for _, m in todo)
+    lines = "".join("unmangle\t%s\t%s\n" % (mc.cps(m), mc.table_for(m + lookup_chars(m), lookup_names(m))) for _, m in todo)
     out = subprocess.run([binary], input=lines, capture_output=True, text=True).stdout.splitlines()
     for (j, m), l in zip(todo, out):
         kind, _, rest = l.partition(" ")
@@ -165,10 +178,13 @@ def run(chk):
     # ---- unmangle-only correspondence on arbitrary escape-shaped strings
     alpha = ["X", "U", "H", "_", "a", "f", "0", "9", "x", "hyx_", "__", "squid", "Xexclamation_markX", "XU21X", "XU110000X",
              "XU0x1fX", "XU_1X", "XU1_fX", "XhyphenHminusX", ".", "-", "z", "Xlatin_small_letter_aX", "XUX", "XX"]
-    strs = []
+    # first: names that unicodedata.lookup resolves through an alias (FF = FORM FEED, LF, NUL, ...): the lookup oracle
+    # handed to the model must know them (a false alarm of this check with VERIF_SEED=2 came from leaving them out)
+    strs = ["hyx_XffXexclamation_markX", "hyx_XlfX", "XnulX", "hyx_aXffX", "hyx_XbelX0", "hyx_XFFX"]
+    alpha += ["XffX", "XlfX"]
     for _ in range(20000 if not thorough else 60000):
         strs.append("".join(chk.rng.choice(alpha) for _ in range(chk.rng.randrange(1, 7))))
-    lines = "".join("unmangle\t%s\t%s\n" % (mc.cps(m), mc.table_for(m + lookup_chars(m))) for m in strs)
+    lines = "".join("unmangle\t%s\t%s\n" % (mc.cps(m), mc.table_for(m + lookup_chars(m), lookup_names(m))) for m in strs)
     out = __import__("subprocess").run([binary], input=lines, capture_output=True, text=True).stdout.splitlines()
     for m, l in zip(strs, out):
         kind, _, rest = l.partition(" ")
